@@ -155,6 +155,8 @@ def frames_alphabet():
     # a CSM is a CSM whatever it carries: no option at all, or only an unknown elective one
     F["csm-bare"] = rc.encode_tcp(CSM, b"", [], b"")
     F["csm-elective-only"] = rc.encode_tcp(CSM, b"", [(8, b"x")], b"")
+    # the peer can only take small messages: that bounds what is sent to it, not what it may send
+    F["csm-small"] = rc.encode_tcp(CSM, b"", [(2, rc.uint(64))], b"")
     for n in (0, 12, 13, 268, 269):
         if n == 0:
             F["req0"] = rc.encode_tcp(1, b"\x70", [], b"")
